@@ -551,10 +551,12 @@ func (w *c04Wallet) FinalizePsbt(_ context.Context, packet *psbt.Packet, _ strin
 type c04Store struct {
 	acct         *account.Account
 	pendingAsked bool
+	updated      bool
 }
 
 func (s *c04Store) AddAccount(a *account.Account) error { s.acct = a; return nil }
 func (s *c04Store) UpdateAccount(a *account.Account, mods ...account.Modifier) error {
+	s.updated = true
 	for _, m := range mods {
 		m(a)
 	}
@@ -1219,6 +1221,10 @@ func c04RunMgrBatch(r *Run, p *c04Params) {
 	}
 }
 
+// c04MinCloseValue: below this an account output cannot pay the fee of its own
+// close plus a non-dust output at the harness's fee rate.
+const c04MinCloseValue = 2000
+
 // c04FollowUp spends a re-created account output through the account manager
 // (CloseAccount, cooperative before expiry or trader-only after it) using the
 // record the trader STORED for it, with an auctioneer that signs for what is
@@ -1272,7 +1278,7 @@ func c04FollowUp(r *Run, p *c04Params, stored *account.Account, truth *c04Keys, 
 		kind = "followup-expiry"
 	}
 	r.Count("kind/" + kind)
-	if err != nil && strings.Contains(err.Error(), "results in dust") {
+	if err != nil && int64(truth.value) < c04MinCloseValue {
 		// the re-created output is too small to pay for its own close
 		r.Count("followup/too-small-to-close")
 		return
@@ -1712,15 +1718,19 @@ func c04HandlerClass(k *c04Keys, tx *wire.MsgTx, idx int) (class string) {
 	err := mgr.HandleAccountSpend(k.trader.PubKey(), &chainntnfs.SpendDetail{
 		SpendingTx: tx, SpenderInputIndex: uint32(idx), SpendingHeight: 100,
 	})
+	// which branch was taken is read off the store calls, never off an error
+	// text: the cooperative branch is the only one asking for a pending
+	// batch; the expiry branch goes straight to the closing update; an
+	// unknown witness returns an error without touching the store
 	switch {
-	case err != nil && strings.Contains(err.Error(), "unknown spend witness"):
-		return "unknown"
 	case store.pendingAsked:
 		return "multisig"
-	case err != nil:
-		return "error:" + err.Error()
+	case store.updated && err == nil:
+		return "expiry"
+	case err != nil && !store.updated:
+		return "unknown"
 	}
-	return "expiry"
+	return "inconclusive"
 }
 
 func c04B(b bool) string {
@@ -1764,7 +1774,9 @@ func c04Run(r *Run, p *c04Params) {
 	r.Evaluations++
 	r.Count("path/" + p.Path)
 	r.Count(fmt.Sprintf("version/%d", p.Version))
-	if sp.buildErr == "" || strings.Contains(sp.buildErr, "modifications for expired accounts") {
+	if sp.buildErr == "" || ((p.Path == "withdraw" || p.Path == "deposit") && !p.StateExpired &&
+		p.LockTime >= p.signExpiry()) {
+		// built, or refused where a refusal is the documented behaviour
 		c04EmitMgrWT(r, p, sp)
 	}
 	if sp.buildErr != "" {
